@@ -11,7 +11,7 @@ ANCHORS = ["roc_curve.py:roc_with_ci", "roc_curve.py:_find_support_thresholds", 
            "roc_curve.py:_aggregate_rectangles", "roc_curve.py:roc_with_ci.<locals>._metric",
            "experimental/roc_ci.py:fixed_width_band_ci", "experimental/roc_ci.py:simultaneous_joint_region_ci", "experimental/roc_ci.py:pointwise_band_ci",
            "experimental/roc_ci.py:_find_tube_radius", "experimental/roc_ci.py:_displace_curve"]
-DECIDING = {"M-band": 3000}
+DECIDING = {"M-band": 3567}
 THOROUGH_EXTRA = ["W2"]
 RULE = (
     "Every call of roc_with_ci, pointwise_band_ci, simultaneous_joint_region_ci and fixed_width_band_ci (module and re-exported names) is "
